@@ -1,4 +1,5 @@
 import PexpectModel.Deadline
+import PexpectModel.ReadTiming
 import PexpectModel.Drv.Common
 /-! driver: `DL <T|none> <start> <d0> <hit0 0/1> <eps> <dt:kind>…`  and  `WN <T|none> <start> <S> <dt:echo>…` -/
 namespace Drv.DeadlineD
@@ -48,6 +49,18 @@ def handleWait (toks : List String) : String :=
       let r := waitnoecho S (start + T.getD 0) T start wevs
       let res := match r.1 with | some true => "True" | some false => "False" | none => "blocked"
       s!"{res} {r.2}"
+    | _, _ => "bad-op"
+  | _ => "bad-op"
+
+/-- `SI <T> <readyAt|none> <handler cost> <d1,d2,…|->`: select_ignore_interrupts / poll_ignore_interrupts under signals -/
+def handleSelII (toks : List String) : String :=
+  match toks with
+  | [t, r, h, ds] =>
+    match t.toNat?, h.toNat? with
+    | some T, some h =>
+      let ready : Option Nat := if r == "none" then none else r.toNat?
+      let res := Rt.selII T ready h 0 (decList ds)
+      s!"{res.1} {res.2}"
     | _, _ => "bad-op"
   | _ => "bad-op"
 
